@@ -146,6 +146,9 @@ func c08Init() {
 		)
 		c08Targets = append(c08Targets, "package p\n\nimport (\n\t\"errors\"\n\t\"fmt\"\n\t\"io/ioutil\"\n\t\"os\"\n)\n\nfunc f(r io.Reader) error {\n\tb, _ := ioutil.ReadAll(r)\n\tuse(b, os.Args)\n\treturn errors.New(fmt.Sprintf(\"x\"))\n}\n")
 		c08Targets = append(c08Targets, "package p\n\ntype Tagged struct {\n\tName string\n\tAge  int `json:\"age\"`\n}\n\ntype Row struct {\n\tX  int\n\tID int64\n}\n\ntype Row2 struct {\n\tID int64 `db:\"id\"`\n}\n\ntype Emb struct {\n\tTagged `json:\",inline\"`\n\tName string `json:\"name\"`\n}\n")
+		// an empty import group in front of the imports, a file of nothing but clauses and comments
+		c08Targets = append(c08Targets, "package p\n\nimport ()\n\nimport (\n\t\"example.com/old/foo\"\n\t\"io/ioutil\"\n)\n\nfunc f() {\n\tfoo.First(1)\n\tlegacy(2)\n\tb, _ := ioutil.ReadAll(nil)\n\tx()\n}\n",
+			"// Package p is documented.\npackage p\n\nimport ()\n\n// nothing else\n")
 		for s := int64(1); s <= 6; s++ {
 			gg := gen.NewG(rand.New(rand.NewSource(s)))
 			gg.Comment = s%2 == 0
